@@ -173,7 +173,7 @@ Definition translate_plain (rcp0 client_path : bytes) : res bytes :=
     let cp := if starts_slash client_path then client_path else SLASH :: client_path in
     if bytes_eqb (cp ++ [SLASH]) rcp then Ok [DOT]
     else if prefixb rcp cp then
-      let path := skipn (length rcp) cp in
+      let path := skipn (List.length rcp) cp in
       match joinpath_root path with
       | Fail e => Fail e
       | Ok relpath =>
@@ -270,7 +270,7 @@ Section Backing.
         if c =? TILDE then
           let expanded := expander path in
           let expanded := if ends_slash expanded then expanded else expanded ++ [SLASH] in
-          if prefixb base_path expanded then skipn (length base_path) expanded
+          if prefixb base_path expanded then skipn (List.length base_path) expanded
           else path
         else path
     | [] => path
@@ -404,9 +404,41 @@ Definition owalk (w : walk_res) : obs :=
 
 Definition has_nul (l : list bytes) : bool := existsb (existsb (N.eqb 0)) l.
 
-(* [served]: the served directory as segments below T (not reversed). *)
-Definition run_case (dirs files : list (list bytes)) (served : list bytes)
-           (base_path : bytes) (homes : list (bytes * bytes))
+(* the scratch tree built by harness/props/c31.py (paths relative to its root T) *)
+Definition scratch_served : list bytes :=
+  [[49]; [50]; [51]; [115;114;118]; [112;117;98]].
+Definition scratch_dirs : list (list bytes) :=
+  [[[49]];
+   [[49]; [50]];
+   [[49]; [50]; [51]];
+   [[49]; [50]; [51]; [115;114;118]];
+   [[49]; [50]; [51]; [115;114;118]; [112;117;98]];
+   [[49]; [50]; [51]; [115;114;118]; [112;117;98]; [97]];
+   [[49]; [50]; [51]; [115;114;118]; [112;117;98]; [97]; [98]];
+   [[49]; [50]; [51]; [115;114;118]; [115;101;99;114;101;116]];
+   [[49]; [50]; [51]; [115;114;118]; [112;117;98]; [126;97;110;110]];
+   [[49]; [50]; [51]; [115;114;118]; [112;117;98]; [115;101;99;114;101;116]]].
+Definition scratch_files : list (list bytes) :=
+  [[[49]; [50]; [51]; [115;114;118]; [112;117;98]; [102]];
+   [[49]; [50]; [51]; [115;114;118]; [112;117;98]; [120]];
+   [[49]; [50]; [51]; [115;114;118]; [112;117;98]; [97]; [102]];
+   [[49]; [50]; [51]; [115;114;118]; [112;117;98]; [97]; [98]; [102]];
+   [[49]; [50]; [51]; [115;114;118]; [112;117;98]; [126;97;110;110]; [102]];
+   [[49]; [50]; [51]; [115;114;118]; [112;117;98]; [195;169]];
+   [[49]; [50]; [51]; [115;114;118]; [112;117;98]; [37;50;69;37;50;69]];
+   [[49]; [50]; [51]; [115;114;118]; [112;117;98]; [97;37;50;70;102]];
+   [[49]; [50]; [51]; [115;114;118]; [112;117;98]; [115;101;99;114;101;116]; [102]];
+   [[49]; [50]; [51]; [115;114;118]; [102]];
+   [[49]; [50]; [51]; [115;114;118]; [120]];
+   [[49]; [50]; [51]; [115;114;118]; [115;101;99;114;101;116]; [120]];
+   [[49]; [50]; [51]; [115;114;118]; [115;101;99;114;101;116]; [102]];
+   [[49]; [50]; [51]; [102]];
+   [[49]; [50]; [102]];
+   [[49]; [102]];
+   [[102]];
+   [[120]]].
+
+Definition run_case (base_path : bytes) (homes : list (bytes * bytes))
            (fixed vfs : bool) (rcp client_path : bytes) : obs :=
   let tr := if vfs then (if fixed then translate_vfs_fixed rcp client_path
                          else translate_vfs rcp client_path)
@@ -421,7 +453,7 @@ Definition run_case (dirs files : list (list bytes)) (served : list bytes)
           match local_open rch with
           | Fail e => OE e
           | Ok segs => if has_nul segs then OE "OSError"
-                       else owalk (os_walk dirs files (rev served) segs)
+                       else owalk (os_walk scratch_dirs scratch_files (rev scratch_served) segs)
           end;
           match local_open rch with
           | Fail _ => ON
